@@ -289,9 +289,12 @@ def run(ctx):
     ctx.prove("ElkVerif.Props.C33")
 
     if ctx.replay:
-        rp = json.load(open(ctx.replay))["input"]
-        shp = [("replay", rp["program"])]
-        corpus = []
+        rj = json.load(open(ctx.replay))
+        rp = rj["input"]
+        if rj.get("kind") in ("check-free-cycle", "model-impl-disagree"):
+            shp, corpus = [], [("replay", rp["program"], rp.get("name"))]   # a static finding on an ordinary program
+        else:
+            shp, corpus = [("replay:" + rp.get("shape", ""), rp["program"])], []
         delays = [rp.get("delay_ms", 20)]
     else:
         shp = shapes(ctx.rng, ctx.n(QUICK_SHAPES, THOROUGH_SHAPES))
